@@ -1,7 +1,7 @@
 (* C04: proofs — see Props/C04.v *)
 (* C04: on plans of instantaneous actions with pairwise distinct start times the model of the time-triggered validator
    and the model of the sequential validator give the same verdict. *)
-From Coq Require Import List ZArith NArith QArith Qcanon Bool Lia Lra Lqa Permutation.
+From Coq Require Import List ZArith NArith QArith Qcanon Bool Lia Lqa Permutation.
 Import ListNotations.
 Require Import UPV.Core.Expr UPV.Core.Eval UPV.Core.Interp UPV.Planning.Problem UPV.Planning.Sem UPV.Planning.SeqValidate.
 Require Import UPV.Planning.Temporal UPV.Planning.TTValidate UPV.Planning.TTSeq.
